@@ -7,7 +7,7 @@ NaN as score when a score column is requested.  Every row has the header's width
 also pandas' precondition for DataFrame(rows, columns=header)."""
 import z3
 from .common import *  # noqa
-from .rowspec import row_facts, header_facts, attrs_in, cidx
+from .rowspec import row_facts, header_facts, attrs_in, cidx, header_term
 from pyvc.pandas_model import DF, LB, col_vals, col_index, isnull_list, notnull_list, sel_src, sel_dst, sel_rows
 from pyvc import natives as N
 
@@ -153,9 +153,12 @@ def _mk(l_none, r_none):
         sc = c['out_sim_score']
         for with_score in (True, False):
             for (lab, f) in header_facts(cols, c['l_key_attr'], c['r_key_attr'], lo, ro,
-                                         c['l_out_prefix'], c['r_out_prefix'], False, with_score):
+                                         c['l_out_prefix'], c['r_out_prefix'], False, with_score,
+                                         assumed=not c.proving):
                 fs.append((lab + ('-with-score' if with_score else '-no-score'),
                            z3.Implies(sc if with_score else z3.Not(sc), f)))
+        fs.append(('header-term', cols.t == header_term(c['l_key_attr'], c['r_key_attr'], lo, ro,
+                                                        c['l_out_prefix'], c['r_out_prefix'], sc)))
         return fs
 
     MissingPairs.ensures = ensures
